@@ -55,6 +55,7 @@ CONSTANTS NMax,          \* layers 1..NMax
                          \* component does to the arrays the model shares with it
           RADS, GMS,     \* planet radius / GM (units)
           Slicing,       \* "layer" | "droplast"
+          TableEnds,     \* "nearest" | "swapped": which end of a tabulated T(P) an out-of-range layer takes
           Export
 VARIABLES phase, n, lev, lay, T, tab, mix, mu, rad, gm, i, z, g, H, prof
 vars == <<phase, n, lev, lay, T, tab, mix, mu, rad, gm, i, z, g, H, prof>>
@@ -240,6 +241,18 @@ MixAlignedWithLayers ==
                                      /\ XLt(Q(0), mu[k])
 DensityIdealGas ==
     Built => \A k \in 1..n : DensityRel(XMul, REqual, Rho(k), P10r(lay[k]), Q(T[k]), kB) /\ XLt(Q(0), Rho(k))
+\* Fourth round.  The temperatures T may come from a TABLE on its own pressure nodes that the grid reaches beyond
+\* (on both sides / on one side) or that reaches beyond the grid: in every such position the table's rule
+\* (TableBrackets: node value on a node, NEAREST end outside) hands layer k exactly T[k], so the structure that
+\* follows is the same.  TableEnds = "swapped" (expected-counterexample config only) takes the far end.
+Lay2 == [k \in 1..n |-> 2 * lay[k]]
+TabulatedTemperatureAligned ==
+    (Built /\ ShareEffect = "readonly") => \A c \in TableCovers(n) :
+        LET nd == TableNodes(c, Lay2, T)
+        IN  /\ NodesDecreasing(nd)
+            /\ \A k \in 1..n : /\ TableBrackets(nd, Lay2[k], 0, TableEnds) # {}
+                                /\ \A b \in TableBrackets(nd, Lay2[k], 0, TableEnds) : b.lo = T[k] /\ b.hi = T[k]
+                                /\ TableAlignedRel(nd, Lay2[k], T[k], 0, 0, TableEnds)
 OneEntryPerLayer == Done => OneEntryPerLayerRec(n, prof, LayerProfiles)
 \* two consecutive reads of every exposed array are identical: a step that leaves the phase of a built
 \* model alone (a Read) changes nothing that is exposed
@@ -253,6 +266,7 @@ Emit == (Export /\ phase = "done") =>
                             den |-> ChemDen, w |-> GasW, rad |-> rad, gm |-> gm,
                             z |-> z, g |-> g, H |-> H, rho |-> [k \in 1..n |-> Rho(k)], prof |-> prof,
                             tkinds |-> TempComponentKinds(T),
+                            tables |-> [c \in TableCovers(n) |-> TableNodes(c, Lay2, T)],
                             inputs |-> [j \in 1..Len(OptionSeq) |->
                                           [orient |-> OptionSeq[j].orient, reverse |-> OptionSeq[j].reverse,
                                            array |-> ArrayInput(lay, OptionSeq[j].orient)]]])>>)
